@@ -78,7 +78,7 @@ def _get_basilisp_bytecode(
         message = f"Reached EOF while reading size of source in {fullname}"
         logger.debug(message)
         raise EOFError(message)
-    elif _r_long(raw_size) != source_size:
+    elif raw_size != _w_long(source_size):
         message = f"Non-matching filesize ({_r_long(raw_size)}) in {fullname} bytecode cache; expected {source_size}"
         logger.debug(message)
         raise ImportError(message, **exc_details)
@@ -302,27 +302,35 @@ class BasilispImporter(  # type: ignore[misc]  # pylint: disable=abstract-method
         self._cache[spec.name] = {"spec": spec}
         return mod
 
-    def _exec_cached_module(
+    def _load_cached_code(
         self,
         fullname: str,
         loader_state: Mapping[str, str],
         path_stats: Mapping[str, int],
+    ) -> list[types.CodeType]:
+        """Read and validate the cached bytecode of a Basilisp module. Raise an exception
+        if there is no valid cache."""
+        logger.debug(f"Checking for cached Basilisp module '{fullname}''")
+        cache_data = self.get_data(loader_state["cache_filename"])
+        return _get_basilisp_bytecode(
+            fullname, path_stats["mtime"], path_stats["size"], cache_data
+        )
+
+    def _exec_cached_module(
+        self,
+        fullname: str,
+        loader_state: Mapping[str, str],
+        cached_code: list[types.CodeType],
         module: BasilispModule,
     ) -> None:
-        """Load and execute a cached Basilisp module."""
+        """Execute the cached bytecode of a Basilisp module."""
         filename = loader_state["filename"]
-        cache_filename = loader_state["cache_filename"]
 
         with timed(
             lambda duration: logger.debug(
                 f"Loaded cached Basilisp module '{fullname}' in {duration / 1000000}ms"
             )
         ):
-            logger.debug(f"Checking for cached Basilisp module '{fullname}''")
-            cache_data = self.get_data(cache_filename)
-            cached_code = _get_basilisp_bytecode(
-                fullname, path_stats["mtime"], path_stats["size"], cache_data
-            )
             compiler.compile_bytecode(
                 cached_code,
                 compiler.GeneratorContext(
@@ -420,13 +428,19 @@ class BasilispImporter(  # type: ignore[misc]  # pylint: disable=abstract-method
             if os.getenv(_NO_CACHE_ENVVAR, "").lower() == "true":
                 self._exec_module(fullname, spec.loader_state, path_stats, module)
             else:
+                # Only reading the cache is covered by the fallback: an exception raised
+                # by the namespace's own code while it runs must not run it a second time
                 try:
-                    self._exec_cached_module(
-                        fullname, spec.loader_state, path_stats, module
+                    cached_code = self._load_cached_code(
+                        fullname, spec.loader_state, path_stats
                     )
                 except (EOFError, ImportError, OSError) as e:
                     logger.debug(f"Failed to load cached Basilisp module: {e}")
                     self._exec_module(fullname, spec.loader_state, path_stats, module)
+                else:
+                    self._exec_cached_module(
+                        fullname, spec.loader_state, cached_code, module
+                    )
 
 
 def hook_imports() -> None:
